@@ -44,14 +44,23 @@ def log_ext(ctx, recs):
     return And(*parts)
 
 
+PAYOBJ_OF = z3.Function("payload_object", sv.RealS, sv.OpaqueS)    # the payload object that holds an element-wise value
+
+
+def payobj(v):
+    """log entry for a pushed payload, whichever view (object / element-wise value) the calling unit has of it"""
+    e = v.e
+    return e if e.sort() == sv.OpaqueS else PAYOBJ_OF(e)
+
+
 def register(reg):
     fields(reg)
     RET = ["data", "_connected_inputs", "_total_mem", "$fexists"]
 
     # ---- IOutput.push_data / push_info (interface view used by the connect helper)
     reg.add(Contract("iface:IOutput.push_data", params={"data": PAYOBJ, "time": TimeOpt}, note="method", verify=False,
-                     modifies=lambda ctx: [(None, f) for f in RET + ["_time"]] + [(WORLD, "$push_log"), (WORLD, "$notify_log")],
-                     ensures=lambda ctx, r: log_ext(ctx, [(ctx.self.e, ctx.time, ctx.data.e)]),
+                     modifies=lambda ctx: [(None, f) for f in RET] + [(ctx.self, "_time"), (WORLD, "$push_log"), (WORLD, "$notify_log")],
+                     ensures=lambda ctx, r: log_ext(ctx, [(ctx.self.e, ctx.time, payobj(ctx.data))]),
                      raises={"FinamNoDataError": lambda ctx: z3.BoolVal(True), "FinamDataError": lambda ctx: z3.BoolVal(True),
                              "FinamStaticDataError": lambda ctx: z3.BoolVal(True)},
                      raise_frame_empty=True))
